@@ -320,9 +320,12 @@ CHECKS['C14'] = dict(
          'prototype by prototype in list order up to and including the first prototype of which it accepted one (a call that returns false has examined everything); the large payload type asks for 16-byte alignment and its address is checked wherever it is handed out; payload ledger; non-trivial: queues - >=3 prototypes enqueued, a '
          'processIf over own and foreign events, a slot recycled to another kind, >=1 listener call; lists/dispatchers - listeners of >=3 prototypes, a callable accepted by several prototypes, a successful '
          'remove, >=1 call; distinct = trace hash + configuration; '
-         'the heterogeneous family of the C09 fault enumeration is run as well: a copy of an argument that throws at any point of an enqueue (the third copy constructs the object inside the type-erased slot) must leave no slot tagged as holding an object it does not hold',
+         'the heterogeneous family of the C09 fault enumeration is run as well: a copy of an argument that throws at any point of an enqueue (the third copy constructs the object inside the type-erased slot) must leave no slot tagged as holding an object it does not hold; "reaches exactly the callbacks bound to that prototype" is also checked while several threads add and remove callbacks of one prototype and invoke (the HeterCallbackList / HeterEventDispatcher targets of the C03 concurrent histories, per-prototype linearizability + traversal oracle; half of them start with no per-prototype list yet)',
     jobs=JS('drv_heter', 'asan17', 'all', 36000, 900000, MH, shards=2, shards_thorough=4) + JS('drv_heter', 'clang-asan17', 'pif', 18000, 360000, MH, seed_offset=1, shards=2, shards_thorough=4)
-         + [J('drv_fault', 'asan17-fault', '', 480, 9000, defs=['-DVF_CFG_MASK=0xc0'], opts={'kind': '7'}, seed_offset=2, shards=8, shards_thorough=16, label='heter-under-faults')],
+         + [J('drv_fault', 'asan17-fault', '', 480, 9000, defs=['-DVF_CFG_MASK=0xc0'], opts={'kind': '7'}, seed_offset=2, shards=8, shards_thorough=16, label='heter-under-faults'),
+            J('drv_cblist_mt', 'plain', '', 4000, 80000, opts={'cfg': '5'}, seed_offset=3, shards=8, shards_thorough=16, label='heter-list-mt'),
+            J('drv_cblist_mt', 'plain', '', 4000, 80000, opts={'cfg': '6'}, seed_offset=4, shards=8, shards_thorough=16, label='heter-dispatcher-mt'),
+            J('drv_cblist_mt', 'tsan', '', 480, 8000, opts={'cfg': '5'}, seed_offset=5, shards=8, shards_thorough=16, label='heter-list-mt')],
     assumptions=['processIf completeness is not asserted (only: right prototypes, queue order per prototype, at most one examination per event, accepted events dispatched once, result)',
                  'listener changes from inside callbacks belong to C02'],
     technique='online differential monitor with independent prototype-selection oracle, typed payload ledger, slot-recycling model, g++ and clang++, ASan+UBSan (type confusion shows as wild reads)',
